@@ -19,7 +19,7 @@ type C06Dup struct {
 }
 
 func GenC06Dup() *rapid.Generator[C06Dup] {
-	gg := genGenomeSpec(GenomeCfg{Modules: true, MinGenes: 1, Big: true})
+	gg := genGenomeSpec(GenomeCfg{Modules: true, MinGenes: 1, Big: true, ModLinkW: true, LargeNumbers: true})
 	return rapid.Custom(func(t *rapid.T) C06Dup {
 		c := C06Dup{G: gg.Draw(t, "genome"), NewId: rapid.IntRange(0, 1000).Draw(t, "new id"), OnCopy: rapid.Bool().Draw(t, "mutate copy")}
 		if rapid.IntRange(0, 5).Draw(t, "other trait lengths") == 0 {
@@ -286,7 +286,7 @@ type C06Spawn struct {
 }
 
 func GenC06Spawn() *rapid.Generator[C06Spawn] {
-	gg := genGenomeSpec(GenomeCfg{Modules: true, MinGenes: 1, Big: true})
+	gg := genGenomeSpec(GenomeCfg{Modules: true, MinGenes: 1, Big: true, ModLinkW: true, LargeNumbers: true})
 	og := genOpts(OptsCfg{MaxPop: 12})
 	return rapid.Custom(func(t *rapid.T) C06Spawn {
 		return C06Spawn{G: gg.Draw(t, "genome"), Opts: og.Draw(t, "opts"), Seed: int64(rapid.IntRange(0, 1<<30).Draw(t, "seed"))}
